@@ -276,6 +276,8 @@ def classify(component, what, case):
         # F174: lyd_diff_insert sets *first_node to the anchor when the first sibling is moved behind it
         return "F174"
     if law == "reverse":
+        if case.get("model_verdict") not in (None, verdict, "unknown"):
+            return None     # the implementation fails differently from the model of the pinned behaviour: not a listed finding
         # F15(d): orig-value = value = '' (first place / predecessor with the empty value): lyd_change_meta reports "no change"
         if verdict == "Reverse:Enot" and "uo-equal-anchors" in feat:
             return "F15"
@@ -533,7 +535,7 @@ def process(cx, schemas, cases, tag, reverse=True, merge=True, laws_every=4, mer
     for i, (c, o, mo) in idx.items():
         r = ri.get(i, ["err", "NoReply"])
         if mo is None:
-            eval_reverse(cx, c, o, r, i)
+            eval_reverse(cx, c, o, r, i, rm.get(i))
         else:
             eval_merge(cx, c, o, mo, r, i)
     # ---- 4. more laws (impl only) on a subset
@@ -579,7 +581,7 @@ def parse_reply(s, r):
     return R, X, (r[2] if r[2].startswith("E:") else r[3])
 
 
-def eval_reverse(cx, c, o, r, rid=None):
+def eval_reverse(cx, c, o, r, rid=None, mr=None):
     if r[:2] in (["err", "Crash"], ["err", "Timeout"]):
         return
     if rid in STALE:
@@ -593,6 +595,13 @@ def eval_reverse(cx, c, o, r, rid=None):
     A, B = tg.untok(c.s, c.a), tg.untok(c.s, c.b)
     feat = reverse_features(c.s, A, B, c.D1.get(o, []), R, X, o) + list(c.f1.get(o, []))
     p = payload(c, "reverse", verdict, o, None, feat, r)
+    if mr is not None and mr[:2] not in (["err", "NoReply"],):
+        # the model carries the listed defects of reversal (F15): a failure is an instance of one of them only if the model
+        # fails on this input in the same way
+        try:
+            p["model_verdict"] = parse_reply(c.s, mr)[2]
+        except Exception:
+            p["model_verdict"] = "?"
     if R is not None:
         p["reversed_text"] = tg.pretty(c.s, R)[:2500]
     if X is not None:
